@@ -81,6 +81,8 @@ def plan(tier, seed):
                         {"family": "unordered", "costs": lab[:2]})
     out += L.split_plan("unordered:U5chainx1x3", [(sh, None) for sh in spaces.chain_shapes(5)], u3, 150,
                         {"family": "unordered", "costs": lab[:3]})
+    # the quick slices that the larger ones above do not subsume
+    out = [sh for sh in plan("quick", seed) if sh["slice"] in ("ordered:O3x1x4s",)] + out      # cheap ones first
     return out
 
 
